@@ -441,8 +441,14 @@ func shapeHash(w *World) string {
 		fmt.Fprint(h, v)
 	}
 	if w.Plan != nil {
+		fmt.Fprint(h, w.Plan.Note, ";")
 		for _, s := range w.Plan.Steps {
-			fmt.Fprintf(h, "%s/%s/%d/%d;", s.Kind, s.Label, s.Peer, len(s.Pfx))
+			// order of magnitude of the gap: the same steps 1 ms or 1 s apart are different schedules
+			mag := 0
+			for g := s.GapUS; g > 0; g >>= 2 {
+				mag++
+			}
+			fmt.Fprintf(h, "%s/%s/%d/%d/%d;", s.Kind, s.Label, s.Peer, len(s.Pfx), mag)
 		}
 	}
 	var ks []string
